@@ -27,6 +27,36 @@ META = dict(
 HEADER = C.HEADER_IV + 'From TV Require Import Model_C06 Exec_C06.\n'
 
 
+_SCALED = []
+
+
+def scaled_spectrum_class():
+    """an observation that has a fitting parameter of its own (a calibration scale on the measured values)"""
+    if _SCALED:
+        return _SCALED[0]
+    from taurex.data.spectrum.array import ArraySpectrum
+    from taurex.data.fittable import fitparam
+
+    class ScaledSpectrum(ArraySpectrum):
+        def __init__(self, arr):
+            self._scale = 1.0
+            super().__init__(arr)
+
+        @fitparam(param_name='obs_scale', param_latex='$s$', default_fit=False, default_bounds=[0.1, 10.0])
+        def obsScale(self):
+            return self._scale
+
+        @obsScale.setter
+        def obsScale(self, value):
+            self._scale = value
+
+        @property
+        def spectrum(self):
+            return self._obs_spectrum[:, 1] * self._scale
+    _SCALED.append(ScaledSpectrum)
+    return ScaledSpectrum
+
+
 def make_obs(rng, model):
     from taurex.data.spectrum.array import ArraySpectrum
     with np.errstate(all='ignore'):
@@ -45,6 +75,8 @@ def make_obs(rng, model):
         cols.append(np.array([rng.uniform(0.05, 0.5) for _ in range(k)]) * wl)
     arr = np.vstack(cols).T
     rng.shuffle(arr.tolist())
+    if rng.random() < 0.5:
+        return scaled_spectrum_class()(arr), arr
     return ArraySpectrum(arr), arr
 
 
@@ -54,7 +86,7 @@ def setup(rng):
     return spec
 
 
-def choose_fit(rng, spec):
+def choose_fit(rng, spec, obs=None):
     from taurex.core.priors import Uniform, LogUniform, Gaussian
     g1, g2 = spec['gases']
     cand = [('planet_radius', 'lin'), ('T', 'lin'), (g1, 'log'), (g2, 'linprior')]
@@ -72,6 +104,10 @@ def choose_fit(rng, spec):
         else:
             pr = ('uniform', [1e-8, 2.0])
         out.append((name, pr))
+    if obs is not None and 'obs_scale' in obs.fittingParameters and rng.random() < 0.8:
+        # a parameter that lives on the observation, with a user prior that differs from the default of its mode
+        out.append(('obs_scale', rng.choice([('loguniform', [-0.5, 0.5]), ('uniform', [0.5, 2.0]), ('gauss', 1.0, 0.1)])))
+        rng.shuffle(out)
     return out
 
 
@@ -85,7 +121,7 @@ def configure(opt, fit):
             opt.set_prior(name, LogUniform(bounds=list(pr[1])))
         else:
             opt.set_prior(name, Gaussian(mean=pr[1], std=pr[2]))
-    for n in list(opt._model.fittingParameters):
+    for n in list(opt._model.fittingParameters) + list(opt._observed.fittingParameters):
         if n not in [f[0] for f in fit]:
             opt.disable_fit(n)
     opt.compile_params()
@@ -165,7 +201,7 @@ def run(ctx):
         spec = setup(rng)
         model = tmodel.build(spec)
         obs, arr = make_obs(rng, model)
-        fit = choose_fit(rng, spec)
+        fit = choose_fit(rng, spec, obs)
         rp = dict(kind=kind, spec=spec, obs=arr, fit=fit)
         opt, box, restore = capture(kind, obs, model)
         try:
@@ -183,7 +219,7 @@ def run(ctx):
         # an independent model + binner for the expected values
         model2 = tmodel.build(spec)
         binner2 = obs.create_binner()
-        data, sig = np.array(obs.spectrum, float), np.array(obs.errorBar, float)
+        raw, sig = np.array(obs.rawData[:, 1], float), np.array(obs.errorBar, float)
         seq = []
         for j in range(rng.choice([2, 3, 5])):
             u = [rng.random() for _ in range(ndim)]
@@ -216,7 +252,9 @@ def run(ctx):
             vals = {n_: (10 ** xx if fitd[n_][0] == 'loguniform' else xx) for n_, xx in zip(order, x)}
             try:
                 for n_, v in vals.items():
-                    model2[n_] = v
+                    if n_ != 'obs_scale':
+                        model2[n_] = v
+                data = raw * vals.get('obs_scale', 1.0)
                 with np.errstate(all='ignore'):
                     binned = binner2.bin_model(model2.model(obs.wavenumberGrid))[1]
                 valid = True
